@@ -18,6 +18,7 @@ from pathlib import Path
 from .kit import pristine, H, Scratch, Trace, short, stream, weighted
 from .gen import schema as S
 from . import parsekit as K
+from .parsesim20 import root_path
 
 PROPERTY = "C11"
 ENGINE = "parsesim"
@@ -42,7 +43,7 @@ ASSUMPTIONS = [
     "nothing is asserted about WHICH verdict is returned (C07/C08)",
 ]
 TIERS = {
-    "quick": {"runs": 56, "chunk": 1, "wall": 110, "chunk_timeout": 500, "selftest": 4},
+    "quick": {"runs": 48, "chunk": 1, "wall": 90, "chunk_timeout": 500, "selftest": 4},
     "thorough": {"runs": 700, "chunk": 1, "wall": 800, "chunk_timeout": 900, "selftest": 8},
 }
 ISOLATE_RUNS = True
@@ -57,7 +58,7 @@ def preload():
 
 
 EXPECTED_PROBES = {t: ["torn_root_inside_token", "torn_module", "torn_to_empty", "garble_float_id", "garble_string_enum_value",
-                       "garble_unknown_param", "garble_param_arity", "garble_empty_enum", "garble_array_size", "garble_deep_nest", "other_text:random_tokens", "other_text:crlf", "other_text:bom", "banner_comment",
+                       "garble_unknown_param", "garble_param_arity", "garble_empty_enum", "garble_array_size", "garble_deep_nest", "other_text:random_tokens", "other_text:crlf", "other_text:bom", "banner_comment", "exotic_line_separators", "root_path:symlink", "root_path:rel",
                        "missing_module", "empty_module", "string_api", "tree_modified_in_place", "shared_logger_reused", "err_rendered",
                        "citation_checked"] for t in TIERS}
 
@@ -269,6 +270,12 @@ def run_one(seed: int, index: int, tier: str) -> dict:
             banner = "/" + "*" * n + "\n * schema " + "*" * (n // 2) + " generated\n " + "*" * n + "/\n"
             files = {k: (banner + v if rl.random() < 0.7 else v.replace("\n\n", "\n" + banner + "\n", 1)) for k, v in files.items()}
             probes["banner_comment"] += 1
+        if rl.random() < 0.25:
+            # characters that str.splitlines() treats as line boundaries but the grammar and split("\n") do not,
+            # inside a comment and inside a string literal
+            sep = rl.choice(["\x0c", "\x0b", "\u2028", "\u2029", "\x85", "\x1c", "\x1d", "\x1e"])
+            files = {k: v.replace("\n\n", f"\n// note{sep}more{sep}\n\n", 1).replace('unit("', f'unit("{sep}', 1) for k, v in files.items()}
+            probes["exotic_line_separators"] += 1
         if rl.random() < 0.3:
             # comments and blank lines so that line numbers and token boundaries vary
             files = {k: v.replace("\n\n", "\n// note\n\n", 1).replace("{\n", "{ /* c */\n", 1) for k, v in files.items()}
@@ -289,6 +296,13 @@ def run_one(seed: int, index: int, tier: str) -> dict:
     if use_string_api:
         probes["string_api"] += 1
     api = "string" if use_string_api else "file"
+    if api == "file" and len(files) > 1 and rl.random() < 0.12:
+        # the root text is handed over as a string while the process's working directory is the tree: `mod` statements
+        # then resolve against real files although the root itself is in memory
+        api = "string_in_dir"
+        probes["string_api_in_tree_dir"] += 1
+    path_style = rl.choice(["abs", "abs", "abs", "rel", "dotdot", "symlink"]) if api == "file" else "abs"
+    probes["root_path:" + path_style] += 1
     modes = ["fresh", "shared", "default"]
     tree_json = {"files": files}
     nviol = [0]
@@ -313,11 +327,16 @@ def run_one(seed: int, index: int, tier: str) -> dict:
             probes["shared_logger_reused"] += 1
         if api == "string":
             v, out = judge_parse(par, "string", ff["main.fcp"], mode, {"main.fcp": [ff["main.fcp"]]}, probes)
+        elif api == "string_in_dir":
+            sub = base / "tree" if inplace else base / f"t{k}"
+            K.sync_files(sub, ff)
+            os.chdir(sub)
+            v, out = judge_parse(par, "string", ff.get("main.fcp", ""), mode, source_map(ff), probes)
         else:
             # the tree lives in ONE directory that the faults modify in place (70 % of the runs)
             sub = base / "tree" if inplace else base / f"t{k}"
             K.sync_files(sub, ff)
-            v, out = judge_parse(par, "file", sub / "main.fcp", mode, source_map(ff), probes)
+            v, out = judge_parse(par, "file", root_path(sub, "main.fcp", path_style), mode, source_map(ff), probes)
         res["evals"] += 1
         # what a replay needs: the first parse of this run whose error was rendered through the same long-lived
         # logger (it may have filled a cache there), then the last three parses
@@ -333,7 +352,7 @@ def run_one(seed: int, index: int, tier: str) -> dict:
         for x in v:
             nviol[0] += 8 if x[0] == "hang" else 1        # one watchdog expiry ends the run
             res["violations"].append(mk(x, {"files": ff, "api": api, "logger": mode, "fault": {"kind": kind, "file": file},
-                                            "history": hist}, kind, same_bn, index))
+                                            "history": hist, "path_style": path_style}, kind, same_bn, index))
         if len(sample_faults) < 4 and kind != "torn":
             sample_faults.append({"fault": kind, "file": file, "outcome": out})
 
@@ -402,14 +421,22 @@ def check_workload(w):
             # parsed AND rendered, exactly like in the run (rendering is what touches the logger's state)
             if w.get("api") == "string":
                 judge_parse(par, "string", files_h["main.fcp"], mode_h, {"main.fcp": [files_h["main.fcp"]]}, probes)
+            elif w.get("api") == "string_in_dir":
+                K.sync_files(base / "t", files_h)
+                os.chdir(base / "t")
+                judge_parse(par, "string", files_h.get("main.fcp", ""), mode_h, source_map(files_h), probes)
             else:
                 K.sync_files(base / "t", files_h)
-                judge_parse(par, "file", base / "t" / "main.fcp", mode_h, source_map(files_h), probes)
+                judge_parse(par, "file", root_path(base / "t", "main.fcp", w.get("path_style", "abs")), mode_h, source_map(files_h), probes)
         if w.get("api") == "string":
             v, _ = judge_parse(par, "string", files["main.fcp"], mode, {"main.fcp": [files["main.fcp"]]}, probes)
+        elif w.get("api") == "string_in_dir":
+            K.sync_files(base / "t", files)
+            os.chdir(base / "t")
+            v, _ = judge_parse(par, "string", files.get("main.fcp", ""), mode, source_map(files), probes)
         else:
             K.sync_files(base / "t", files)
-            v, _ = judge_parse(par, "file", base / "t" / "main.fcp", mode, source_map(files), probes)
+            v, _ = judge_parse(par, "file", root_path(base / "t", "main.fcp", w.get("path_style", "abs")), mode, source_map(files), probes)
     for x in v:
         out.append(mk(x, w, w.get("fault", {}).get("kind", "?"), same_bn))
     return out
